@@ -454,7 +454,11 @@ def enclosing(text: str, pos: int) -> typing.List[typing.Tuple[str, str]]:
 def mcond_of(kind: str, header: str) -> str:
     h = header.strip()
     root = r'(?:t|T|type|composite_type)'
+    if kind == 'else':
+        return '(CondElse %s)' % mcond_of('if', header)
     if kind == 'if':
+        if re.fullmatch(root + r' is ServiceType', h):
+            return 'CondIsService'
         if re.fullmatch(root + r'\.has_fixed_port_id', h):
             return '(CondHas SrcPortId)'
         if re.fullmatch(root + r'\.fixed_port_id is not none', h):
@@ -533,6 +537,49 @@ def name_and_const_templates() -> str:
         'Definition py_float_const_tpl : list piece := %s.' % pieces_of(m.group(3), ('c',))])
 
 
+def names_and_flags() -> str:
+    """every exported name the C / C++ templates declare (so that a name without a row in the model is noticed), and the boolean flags
+    with the Jinja branch under which each literal value is rendered"""
+    rd = lambda rel: _blank_comments(gen.read_repo('src/nunavut/lang/' + rel))  # noqa: E731
+    cdef, cbase, cppc = rd('c/templates/definitions.j2'), rd('c/templates/base.j2'), rd('cpp/templates/_composite_type.j2')
+    names: typing.List[typing.Tuple[str, str]] = []
+    for text in (cbase, cdef):
+        for m in re.finditer(r'#[ \t]*define[ \t]+\{\{[^}]*\}\}((?:_\{\{[^}]*\}\})?[A-Za-z_0-9]*)', text):
+            nm = re.sub(r'\{\{\s*constant\.name\s*\}\}', '<const>', m.group(1))
+            nm = re.sub(r'\{\{\s*f\.name\s*\}\}', '<field>', nm)
+            if nm and ('TgtC', nm) not in names:
+                if '{' in nm:
+                    raise Unsupported('template scan: macro name %r' % m.group(1))
+                names.append(('TgtC', nm))
+    a = cppc.find('struct _traits_')
+    b = cppc.find('struct TypeOf', a)
+    if a < 0 or b < 0:
+        raise Unsupported('template scan: C++ _traits_ block not found')
+    traits = cppc[a:b]
+    for m in re.finditer(r'static constexpr\s+(?:\{\{[^}]*\}\}|[\w:]+)\s+(\w+)\s*=', traits):
+        if ('TgtCpp', m.group(1)) not in names:
+            names.append(('TgtCpp', m.group(1)))
+    if re.search(r'static constexpr\s+\{\{\s*constant\.data_type\s*\|\s*declaration\s*\}\}\s+\{\{\s*constant\.name\s*\|\s*id\s*\}\}\s*=', cppc):
+        names.append(('TgtCpp', '<const>'))
+    for rel in ('cpp/templates/_fields_as_variant.j2', 'cpp/templates/_fields_as_union.j2'):
+        if re.search(r'static constexpr const std::size_t MAX_INDEX =', rd(rel)) and ('TgtCpp', 'MAX_INDEX') not in names:
+            names.append(('TgtCpp', 'MAX_INDEX'))
+    sites = []
+    for m in re.finditer(r'_HAS_FIXED_PORT_ID_[ \t]+(\w+)', cbase):
+        sites.append(('TgtC', '_HAS_FIXED_PORT_ID_', enclosing(cbase, m.start()), m.group(1)))
+    for nm in ('HasFixedPortID', 'IsServiceType'):
+        for m in re.finditer(r'static constexpr bool ' + nm + r'\s*=\s*(\w+);', traits):
+            sites.append(('TgtCpp', nm, enclosing(cppc, a + m.start()), m.group(1)))
+    rows = []
+    for tg, nm, conds, val in sites:
+        if val not in ('true', 'false'):
+            raise Unsupported('template scan: %s rendered as %r' % (nm, val))
+        rows.append('{| fs_tgt := %s; fs_name := %s; fs_conds := [%s]; fs_value := %s |}'
+                    % (tg, pyfun_tr._str_lit(nm), '; '.join(mcond_of(k, h) for k, h in conds), val))
+    return ('Definition exported_names : list (mtarget * str) :=\n  [%s].\n\nDefinition flag_sites : list flag_site :=\n  [%s].'
+            % (';\n   '.join('(%s, %s)' % (tg, pyfun_tr._str_lit(nm)) for tg, nm in names), ';\n   '.join(rows)))
+
+
 CMP = {'<': 'CmpLt', '<=': 'CmpLe', '>': 'CmpGt', '>=': 'CmpGe'}
 
 
@@ -609,6 +656,7 @@ def scan_templates() -> str:
         'Definition cpp_capcheck : capcheck :=\n  %s.' % cpp_cc,
         'Definition c_nested_size_bytes : mexp := %s.' % nested,
         name_and_const_templates(),
+        names_and_flags(),
         'Definition emit_table : list emit :=\n  [%s].' % ';\n   '.join(
             '{| em_tgt := %s; em_key := %s; em_conds := %s |}' % r for r in emit_rows())]
     return '\n\n'.join(out)
